@@ -278,6 +278,10 @@ impl Layer {
         if !area.is_inside(pos1) || !area.is_inside(pos2) {
             return;
         }
+        let alpha_locked = self.properties.has_alpha_channel && self.properties.is_alpha_channel_locked;
+        if alpha_locked && !(self.get_char(pos1).is_visible() && self.get_char(pos2).is_visible()) {
+            return;
+        }
         let tmp = self.get_char(pos1);
         self.set_char(pos1, self.get_char(pos2));
         self.set_char(pos2, tmp);
